@@ -494,17 +494,19 @@ _TECH = "Coq proof (induction over op histories, invariants) + extraction-based 
 META_C02 = {
     "text": "Theorems (Coq, closed under the global context; all trees, payload assignments, failing positions (n,k), scorers, "
             "histories): every state reachable by connectBlock / setState / comparePopScore is 'quiet' (tree well formed, tip "
-            "applied, appliedBlockCount = length of root..tip) and in a quiet state EXACTLY root..tip is flagged applied "
-            "(counting argument over the as-coded counter). CommandGroup::execute and applyBlock are atomic (exact equality of "
-            "P; only FAILED_POP/FAILED_CHILD marks change), unExecute/unapplyBlock are exact inverses. "
-            "C02_setState_atomic_partial: true => target is tip, exactly root..target applied; false => tip, counter, the "
-            "applied flag of every block unchanged and P unchanged as a multiset. C02_compare_atomic_partial: result >= 0 => "
-            "tip, counter, applied flags and P unchanged; result < 0 => candidate is tip, exactly root..candidate applied. "
-            "_partial because two clauses of the property are not proved (kept in coq/Properties_C02.v): validity marks change "
-            "only on the target/candidate branch during the walks (proved for a single applyBlock), and no assert (Abort) of the "
-            "modelled code is reachable. Those are covered by the direct oracle on the implementation (full ALT/VBK/BTC "
-            "snapshot before/after every call with the allowance of DESIGN section 7, under enumeration of the failing group "
-            "position) and by the step-by-step correspondence with the extracted model.",
+            "applied, appliedBlockCount = length of root..tip) and there EXACTLY root..tip is flagged applied. "
+            "CommandGroup::execute and applyBlock are atomic, unExecute/unapplyBlock exact inverses. setState is proved "
+            "COMPLETELY: it never reaches an assert for any known target (C02_setState_never_aborts); true => target is tip, "
+            "exactly root..target applied; false => tip, counter, the applied flag of every block unchanged and P unchanged as a "
+            "multiset; nothing but validity marks changes and only on the target branch (levels raised only on "
+            "ancestors-or-self of the target, FAILED_POP only there, FAILED_CHILD only on proper descendants of a branch block "
+            "that got FAILED_POP). comparePopScore: result >= 0 => tip, counter, applied flags and P unchanged; result < 0 => "
+            "candidate is tip, exactly root..candidate applied; marks only on the candidate branch. _partial "
+            "(C02_compare_atomic_partial): that comparePopScore itself reaches no assert is not proved (needs the "
+            "two-applied-chains analogue of the single-chain lemmas). That clause is covered by the direct oracle on the "
+            "implementation (an assert aborts the harness and is reported with the history; full ALT/VBK/BTC snapshot "
+            "before/after every call, enumeration of the failing group position) and by the step-by-step correspondence with "
+            "the extracted model.",
     "note": _NOTE, "technique": _TECH,
 }
 META_C01 = {
@@ -520,21 +522,19 @@ META_C01 = {
     "note": _NOTE, "technique": _TECH,
 }
 META_C20 = {
-    "text": "Theorems (Coq, closed): C20_full_validity_truthful - in EVERY reachable state (any history of connectBlock / "
-            "setState / comparePopScore with any scorer, any tree, payloads, failing positions) every block at level "
-            "CAN_BE_APPLIED replays successfully ALONE: the bodies of root..b executed from the bootstrap state all succeed "
-            "(invariant over all block-level steps, also inside comparisons; the as-coded counter check + a counting argument "
-            "show that exactly root..parent is applied when the level is raised, and success of a command group does not depend "
-            "on the order of P). For all states: the fully-valid level is raised only on a fully valid parent and only when the "
-            "counter equals the block's height above the root (C20_full_level_guard); a block applied next to another chain or "
-            "on a MAYBE parent is never reported fully valid by that application (C20_maybe_level_never_reported_full); "
-            "unapplyBlock only runs on an applied block with applied parent and no applied child (C20_unapply_order). "
-            "_partial (C20_reactivation_partial): that setState to such a block actually returns true from every reachable "
-            "state (needs FAILED_CHILD/level coherence and Abort-freedom of the walk) is not proved; checked on the "
-            "implementation: every block that ever reported full validity or won a setState/compare is re-activated at random "
-            "later points (planted invalid payloads, candidates valid only thanks to the competing chain, "
-            "invalidate/revalidate/remove); the apply/unapply event trace of the real PopStateMachine (guarded hook) is checked "
-            "against the documented discipline; the model's validity levels are compared exactly.",
+    "text": "Theorems (Coq, closed; no _partial left): for EVERY reachable state (any history of connectBlock / setState / "
+            "comparePopScore with any scorer, any tree, payloads, failing positions): C20_reactivation - setState to a block at "
+            "level CAN_BE_APPLIED that is not invalidated returns TRUE (fork search, unapply to the fork, apply the branch: no "
+            "assert is hit, no command group fails); C20_full_validity_truthful - every block at CAN_BE_APPLIED replays "
+            "successfully ALONE from the bootstrap state; C20_chain_full - every block of root..tip is applied, not failed and "
+            "at CAN_BE_APPLIED; the level logic of applyBlock (the fully-valid level is raised only on a fully valid parent and "
+            "only when the applied-block counter says nothing but root..parent is applied; a block applied next to another "
+            "chain or on a MAYBE parent is never reported fully valid by that application); the unapply discipline. Outside the "
+            "model (finalization, altchain invalidate/revalidate/removeSubtree, the real VBK/BTC trees below the command "
+            "interface) the property is checked on the implementation: every block that ever reported full validity or won a "
+            "setState/compare is re-activated at random later points (planted invalid payloads, candidates valid only thanks "
+            "to the competing chain, invalidate/revalidate/remove); the apply/unapply event trace of the real PopStateMachine "
+            "(guarded hook) is checked against the documented discipline; the model's validity levels are compared exactly.",
     "note": _NOTE + " The trace part uses the guarded hook veriblock/pop/verif_hooks.hpp (popTraceHook) when the repo provides it.",
     "technique": _TECH,
 }
